@@ -2,7 +2,7 @@
 
 import contextlib
 import os
-from datetime import datetime
+from datetime import datetime, timedelta
 from typing import Any, Optional, Union
 
 from lark import Lark, Token, Transformer, Tree  # type: ignore[import-untyped,unused-ignore]
@@ -1027,21 +1027,28 @@ class ModelBuilder:
 
                 from dateutil.relativedelta import relativedelta
 
-                match = re.match(r"(\d+)([dwmy])", duration_str)
-                if match:
-                    amount = int(match.group(1))
-                    unit = match.group(2)
-                    if unit == "d":
-                        end_date = start_date + relativedelta(days=amount)
-                    elif unit == "w":
-                        end_date = start_date + relativedelta(weeks=amount)
-                    elif unit == "m":
-                        end_date = start_date + relativedelta(months=amount)
-                    elif unit == "y":
-                        end_date = start_date + relativedelta(years=amount)
-                    else:
-                        end_date = start_date
-                    project["end"] = end_date
+                match = re.fullmatch(r"\+?\s*(\d+(?:\.\d+)?)\s*(min|[hdwmy])", str(duration_str).strip())
+                if not match:
+                    raise ValueError(
+                        f"Project duration '{duration_str}' is not a duration (a number followed by min, h, d, w, m or y)"
+                    )
+                number = float(match.group(1))
+                unit = match.group(2)
+                whole = number.is_integer()
+                if unit == "min":
+                    end_date = start_date + timedelta(minutes=number)
+                elif unit == "h":
+                    end_date = start_date + timedelta(hours=number)
+                elif unit == "d":
+                    end_date = start_date + timedelta(days=number)
+                elif unit == "w":
+                    end_date = start_date + timedelta(weeks=number)
+                elif unit == "m":
+                    # Whole months are calendar months; a fraction counts 30 days per month
+                    end_date = start_date + (relativedelta(months=int(number)) if whole else timedelta(days=number * 30))
+                else:
+                    end_date = start_date + (relativedelta(years=int(number)) if whole else timedelta(days=number * 365))
+                project["end"] = end_date
 
         # Apply project attributes
         self._apply_project_attributes(project, proj_data.get("attributes", []))
